@@ -14,7 +14,7 @@ dir=slog
 if [ "$pkgline" = "times" ]; then dir=slog/internal/times; fi
 if [ "$pkgline" = "strings" ]; then dir=slog/internal/strings; fi
 race=""
-grep -qi -- "-race" $SRC/notes$K.md 2>/dev/null && race="-race"
+[ -z "$NORACE" ] && grep -qi -- "-race" $SRC/notes$K.md 2>/dev/null && race="-race"
 git apply $SRC/patch$K.diff || { echo "APPLY-FAIL"; exit 1; }
 go build ./... || { echo "BUILD-FAIL"; exit 1; }
 suite=$(/verif/scripts/run_suite.sh $WT | head -1)
